@@ -10,7 +10,12 @@ PROPS = {
                 undecided_sentences=["'A's run has completely ended before B begins to fetch' in time: layout order is proved, execution discipline trusted"]),
     "C03": dict(runs=[dict(unit=U1, groups=["bar"])], own_groups=["bar"],
                 undecided_sentences=["'has finished before ... begins' in time (trusted execution discipline)"]),
-    "C10": dict(runs=[dict(unit=U1, groups=["fit"])], own_groups=["fit"], undecided_sentences=[]),
+    "C10": dict(runs=[dict(unit=U1, groups=["fit", "wid"])], own_groups=["fit", "wid"], undecided_sentences=[]),
+    "C04": dict(runs=[dict(unit=U1, groups=["once"])], own_groups=["once"], owns_shared=True,
+                undecided_sentences=["multiplicity on the parallel path rests on the assumed contract of rayon (rule R11: each closure called exactly once)"]),
+    "C12": dict(runs=[dict(unit=U1, groups=["tl"])], own_groups=["tl"],
+                undecided_sentences=["'on the thread that called dispatch, never on a pool worker' (thread identity) is not a contract over sequential code", "'after every other system has finished' in time: program order of inner.dispatch then the thread-local loop is proved, rayon's fork-join is trusted"]),
+    "C13": dict(runs=[dict(unit=U1, groups=["hooks"])], own_groups=["hooks"], undecided_sentences=[]),
 }
 
 TRUSTED = {
